@@ -222,6 +222,107 @@ def tail_copy_from_running_pointer(chk, dirs, rule='tail-copy-from-running-point
         raise AnalysisBroken('%s: only %d copies examined under %s' % (rule, n, dirs))
 
 
+_DEC = ('br_dec16be', 'br_dec16le', 'br_dec32be', 'br_dec32le', 'br_dec64be', 'br_dec64le')
+_ENC = ('br_enc16be', 'br_enc16le', 'br_enc32be', 'br_enc32le', 'br_enc64be', 'br_enc64le')
+
+
+def _codec_maps(F):
+    """(records, findings): records are the statements `A[k] = dec(p + c)`, `A[k] ^= dec(p + c)` and `enc(p + c, A[k])` with A a local array
+    and k, c constants.  Per array and per base pointer p the map k -> c must be a function, and no two distinct decode / encode calls
+    may pair one offset with two slots (a value decoded once and stored twice - the bitsliced AES counter blocks - is fine); two base
+    pointers that cover the same slots of the same array (state decoded, data absorbed, state encoded) must use the same map."""
+    def strip(o):
+        while o['k'] == 'i' and F.insts[o['v']]['op'] in ('zext', 'trunc', 'sext', 'bitcast'):
+            o = F.insts[o['v']]['ops'][0]
+        return o
+
+    def slot(o):
+        b, off = F.addr_of(o)
+        if b['k'] == 'i' and F.insts[b['v']]['op'] == 'alloca' and off is not None:
+            return b['v'], off
+        return None
+
+    def decs(o, depth=0):
+        o = strip(o)
+        if o['k'] != 'i':
+            return []
+        i = F.insts[o['v']]
+        if i['op'] == 'call' and i.get('callee') in _DEC:
+            return [i]
+        if i['op'] == 'xor' and depth < 2:
+            return decs(i['ops'][0], depth + 1) + decs(i['ops'][1], depth + 1)
+        return []
+    recs = []
+    for i in F.insts.values():
+        if i['op'] == 'store':
+            sl = slot(i['ops'][1])
+            if sl:
+                for d in decs(i['ops'][0]):
+                    b, c = F.addr_of(d['ops'][0])
+                    if c is not None:
+                        recs.append((sl[0], sl[1], repr(sorted(b.items())), c, d['id'], i))
+        elif i['op'] == 'call' and i.get('callee') in _ENC and len(i['ops']) >= 2:
+            v = strip(i['ops'][1])
+            if v['k'] == 'i' and F.insts[v['v']]['op'] == 'load':
+                sl = slot(F.insts[v['v']]['ops'][0])
+                b, c = F.addr_of(i['ops'][0])
+                if sl and c is not None:
+                    recs.append((sl[0], sl[1], repr(sorted(b.items())), c, i['id'], i))
+    per, ids, at = {}, {}, {}
+    for A, k, b, c, cid, i in recs:
+        per.setdefault(A, {}).setdefault(b, {}).setdefault(k, set()).add(c)
+        ids.setdefault((A, b, c, k), set()).add(cid)
+        at[(A, b, k)] = i
+        at[(A, b, 'c', c)] = i
+    bad = []
+    for A, bases in per.items():
+        for b, m in bases.items():
+            inv = {}
+            for k, cs in m.items():
+                if len(cs) > 1:
+                    bad.append((at[(A, b, k)], 'slot +%d of the local array is paired with offsets %s of the same buffer' % (k, sorted(cs))))
+                for c in cs:
+                    inv.setdefault(c, set()).add(k)
+            for c, ks in inv.items():
+                if len(ks) > 1 and len(set().union(*[ids[(A, b, c, k)] for k in ks])) > 1:
+                    bad.append((at[(A, b, 'c', c)], 'offset %d of the buffer is paired with slots %s of the local array' % (c, sorted(ks))))
+        bs = sorted(bases)
+        for x in range(len(bs)):
+            for y in range(x + 1, len(bs)):
+                mx, my = bases[bs[x]], bases[bs[y]]
+                if len(mx) > 1 and set(mx) == set(my) and mx != my:
+                    k = next(k for k in sorted(mx) if mx[k] != my[k])
+                    bad.append((at[(A, bs[y], k)], 'two buffers cover the same slots of the local array with different layouts (slot +%d: offsets %s / %s)'
+                                % (k, sorted(mx[k]), sorted(my[k]))))
+    return recs, bad
+
+
+def word_codec_maps(chk, dirs, rule='word-codec-map-consistent', floor=1):
+    """big-/little-endian word decoding into a local array, absorption of data words into it and its encoding back use constant (slot,
+    offset) pairs (GHASH state, AES blocks, DES halves, point coordinates): a slot that receives two offsets, or an offset that lands in
+    two slots, silently drops four or eight bytes of the input from the computation"""
+    C = _control()
+    if not _codec_maps(C.func('lintbad_codec_map'))[1] or _codec_maps(C.func('lintgood_codec_map'))[1] or not _codec_maps(C.func('lintgood_codec_map'))[0]:
+        raise AnalysisBroken('lint controls for %s: positive not matched or negative matched' % rule)
+    P = wmw.program()
+    n = nf = 0
+    for (un, fn), F in sorted(P.static.items()):
+        f = F.file().replace(build.REPO + '/', '')
+        if not any(f.startswith(d) for d in dirs):
+            continue
+        recs, bad = _codec_maps(F)
+        n += len(recs)
+        nf += 1 if recs else 0
+        for i, msg in bad:
+            chk.violation(rule, '%s: word layout of a local array is consistent' % fn, F.where(i), msg + ': part of the input never reaches the computation '
+                          '(or one word is applied twice)', key='%s %s %s' % (rule, fn, msg[:30]))
+    chk.count('decode / absorb / encode statements with constant slot and offset examined by %s' % rule, n)
+    if nf < floor:
+        raise AnalysisBroken('%s: only %d functions with constant word layouts under %s (floor %d)' % (rule, nf, dirs, floor))
+    chk.ok(rule, 'every constant word layout under %s is a consistent bijection (%d statements in %d functions; controls matched)' % (', '.join(dirs), n, nf),
+           dirs[0], nontrivial=False)
+
+
 def _ignored_results():
     """{(file, function, callee): number of call sites whose returned value has no use}, and per-callee used counts"""
     import collections
